@@ -1,6 +1,7 @@
 package props
 
 import (
+	"bytes"
 	"context"
 	"fmt"
 	"math"
@@ -282,6 +283,15 @@ func buildC05Scenarios() []*c05Scenario {
 				tr, err := p2pmsg.NewSignedDecryptionTrigger(simInstanceID, identitypreimage.IdentityPreimage(ids[0]), 150, []byte("txhash"), uni.Keys[4])
 				must(err)
 				sc.Bases[kprtopics.DecryptionTrigger] = []p2pmsg.Message{tr}
+				// the signed hash is instance id || preimage || transactions hash without length prefixes: whoever saw
+				// one signed trigger can move the boundary and keep the signature, so validly signed triggers with
+				// preimages of any length exist
+				for _, ln := range []int{0, 1, 31, 33, 64} {
+					pre := bytes.Repeat([]byte{0x5a}, ln)
+					tr2, err := p2pmsg.NewSignedDecryptionTrigger(simInstanceID, identitypreimage.IdentityPreimage(pre), 150, []byte("txhash"), uni.Keys[4])
+					must(err)
+					sc.Bases[kprtopics.DecryptionTrigger] = append(sc.Bases[kprtopics.DecryptionTrigger], tr2)
+				}
 			}
 			c05Scenarios = append(c05Scenarios, sc)
 		}
@@ -695,7 +705,32 @@ func genC05InputL(rt *rapid.T, sc *c05Scenario, lp string) (topic string, data [
 // c05Run validates and (if accepted) handles one input; returns a failure or "".
 func c05Run(tg *c05Target, topic string, data []byte) (sig, detail string, accepted bool, reachedHandlerValidator bool) {
 	var v verdict
-	g := guardedCall(func() { v = validateOn(tg.M, topic, data) })
+	var g guarded
+	vdone := make(chan struct{})
+	go func() {
+		defer close(vdone)
+		g = guardedCall(func() { v = validateOn(tg.M, topic, data) })
+	}()
+	select {
+	case <-vdone:
+	case <-time.After(10 * time.Second):
+		// the validator is not back after 10 s: parked on a mutex nobody will release?
+		if st := blockedOnMutex("props.c05Run.func"); st != "" {
+			time.Sleep(3 * time.Second)
+			if st2 := blockedOnMutex("props.c05Run.func"); st2 == st {
+				select {
+				case <-vdone:
+				default:
+					return "validator-blocked-on-mutex", "validator did not return and its goroutine has been waiting for a mutex for more than 10 s (a hang, not slowness):\n" + st, false, true
+				}
+			}
+		}
+		select {
+		case <-vdone:
+		case <-time.After(50 * time.Second):
+			return "harness-timeout", "validator did not return within 60 s", false, true
+		}
+	}
 	if v.Panicked != nil {
 		return "validator-panic", fmt.Sprintf("validator panicked: %v", v.Panicked), false, true
 	}
